@@ -115,6 +115,18 @@ theorem C05_stale_instant_factory {cfg : Cfg} {env : Env} {r : Response} {o : Re
   obtain ⟨cf, p, _, hv, _⟩ := processFactory_identity_inv h
   exact verify_stale_instant hv
 
+/-- The windows, for the third entry point (`response_factory(...)` + `verify()`, `Sp.processRespFactory`). -/
+theorem C05_windows_respfactory {cfg : Cfg} {env : Env} {r : Response} {o : Reported}
+    (h : processRespFactory cfg env r = .identity o) :
+    (∀ a ∈ visible r, timesOk cfg env a = true) ∧ issueInstantWithin cfg env r = true := by
+  obtain ⟨rs, hacc⟩ := C04.visible_accepted_respfactory h
+  obtain ⟨p, _, hv, _⟩ := processRespFactory_identity_inv h
+  refine ⟨?_, verify_stale_instant hv⟩
+  intro a ha
+  obtain ⟨v, s, s', hs⟩ := hacc a ha
+  exact accepted_timesOk hs
+
+
 /-- The expiry reported to the application (single-assertion responses): SessionNotOnOrAfter when
     present (and positive), otherwise the Conditions NotOnOrAfter. -/
 theorem C05_reported_expiry {cfg : Cfg} {env : Env} {r : Response} {o : Reported} {a : Assertion}
